@@ -139,7 +139,7 @@ func (s *orRuleSetLoader) enumValueBegin(lex lexeme.LexEvent) {
 		panic(errors.ErrLoader)
 	}
 	enumConstraint := constraint.NewEnum()
-	s.typeRoot.AddConstraint(enumConstraint)
+	s.addConstraint(enumConstraint)
 	s.embeddedValueLoader = newEnumValueLoader(enumConstraint, s.rules)
 	s.stateFunc = s.embeddedLoad
 }
@@ -152,11 +152,18 @@ func (s *orRuleSetLoader) valueLiteral(lex lexeme.LexEvent) {
 		return
 	case lexeme.LiteralEnd:
 		c := constraint.NewConstraintFromRule(s.ruleNameLex, lex.Value(), s.node.Value()) // can panic
-		s.typeRoot.AddConstraint(c)
+		s.addConstraint(c)
 		s.stateFunc = s.valueEnd
 	default:
 		panic(errors.ErrLiteralValueExpected)
 	}
+}
+
+// addConstraint adds the constraint of the rule to the rule-set. A repeated rule
+// is reported at its name, like an unknown one.
+func (s *orRuleSetLoader) addConstraint(c constraint.Constraint) {
+	defer lexeme.CatchLexEventError(s.ruleNameLex)
+	s.typeRoot.AddConstraint(c)
 }
 
 // valueEnd object value end
